@@ -22,8 +22,9 @@ META = {
             'tokens come from a hand-written grammar alphabet plus literals extracted mechanically from every compiled '
             'regex reachable in soupsieve; targets: compile(text), each library regex directly (match and search), '
             'and the match side (attribute selectors / :lang / range pseudo-classes against pumped attribute values). '
-            'Oracle: violation iff an input of <= 80 characters costs > 0.5 s CPU (or must be killed) AND the cost at '
-            'least quadruples when the pumped length doubles, confirmed by re-measurement in a fresh worker. '
+            'Oracle: violation iff, confirmed by re-measurement in a fresh worker, an input of <= 80 characters either costs '
+            '> 0.5 s CPU (or must be killed) and at least quadruples when the pumped length doubles, or costs > 0.05 s and '
+            'grows >= 64x on doubling and >= 6x over the last quarter (a polynomial of degree <= 6 stays below both). '
             'Non-trivial: the pumped input keeps the tokenizer/regex busy past the pumped region, measured as '
             't(80 chars) >= 1.5 * t(40 chars) above the noise floor; distinct by (target, triple)',
     'assumptions': ['CPU time of a single-threaded worker process (time.process_time) is the measured quantity',
@@ -130,8 +131,14 @@ def assess(w, target, triple, col=None):
     if t80 < 0.0001:
         return 'healthy', ''
     t40 = measure(w, target, pumped(triple, MAXLEN // 2))
-    if t80 <= SLOW:
+    if t80 <= 0.02:
         return ('busy' if t80 >= 1.5 * max(t40, 1e-5) else 'healthy'), f't80={t80:.4f} t40={t40:.4f}'
+    # suspicious (> 20 ms at 80 characters): exponential growth shows as a huge jump on doubling the length *and* a
+    # large jump over the last quarter; a polynomial of degree <= 6 stays below 64x / 5.7x
+    t60 = measure(w, target, pumped(triple, (MAXLEN * 3) // 4))
+    expo = t80 / max(t40, 2e-4) >= 64 and t80 / max(t60, 2e-4) >= 6
+    if t80 <= SLOW and not expo:
+        return 'busy', f't80={t80:.4f} t60={t60:.4f} t40={t40:.4f}'
     # candidate violation: escalate to record the growth law, then confirm in a fresh worker
     series = []
     for length in (16, 24, 32, 40, 48, 56, 64, 72, 80):
@@ -143,10 +150,14 @@ def assess(w, target, triple, col=None):
     w.spawn()
     first_slow = next((ln for ln, t in series if t > SLOW), MAXLEN)
     t_conf = measure(w, target, pumped(triple, first_slow))
-    t_half = max(measure(w, target, pumped(triple, first_slow // 2)), 0.0005)
-    if t_conf > SLOW and t_conf / t_half >= 4.0:
+    t_half = max(measure(w, target, pumped(triple, first_slow // 2)), 0.0002)
+    t_3q = max(measure(w, target, pumped(triple, (first_slow * 3) // 4)), 0.0002)
+    slow_rule = t_conf > SLOW and t_conf / t_half >= 4.0
+    expo_rule = t_conf > 0.05 and t_conf / t_half >= 64 and t_conf / t_3q >= 6
+    if slow_rule or expo_rule:
         return 'violation', (f'{target[:2]} input {pumped(triple, first_slow)!r} ({first_slow} chars) costs '
-                             f'{t_conf if t_conf != float("inf") else ">%.0f" % KILL} s CPU; half length {t_half:.4f} s; '
+                             f'{t_conf if t_conf != float("inf") else ">%.0f" % KILL} s CPU; 3/4 length {t_3q:.4f} s, half '
+                             f'length {t_half:.4f} s ({"over 0.5 s" if slow_rule else "x%.0f on doubling: exponential" % (t_conf / t_half)}); '
                              f'series {[(ln, round(t, 4) if t != float("inf") else "killed") for ln, t in series]}')
     return 'slow-polynomial', f't={t_conf:.3f} half={t_half:.4f}'
 
